@@ -1,4 +1,5 @@
-// c16_dtype.cpp — C16 along the "element types of the two operands" dimension: every routine on operands of DIFFERENT
+// c16_dtype_1.cpp (+ _2, _3: the same source with VD_PART 2 / 3; three translation units built in parallel, each
+// instantiates a third of the element-type pairs and answers "unsupported" for the others) — C16 along the "element types of the two operands" dimension: every routine on operands of DIFFERENT
 // element types; the RESULT ELEMENT TYPE of the view and of the evaluated array is printed next to the values.
 //   typed  S:<op> S:<TA> S:<TB> A:a A:b [I:n | L:axa L:axb]
 //          op: matmul matmulv2 dot inner outer vecdot kron tdot (I:n) tdotx (L L)
@@ -6,6 +7,9 @@
 // T: i8 i16 i32 i64 u8 f32 f64.  Data convention: for a floating element type the integers of the case line are HALVES
 // (element = n / 2.0), so int x float results are non-integral yet exact.
 // Output: "ok <shape> ; <elements> ; view=<type> eval=<type> evalsame=<1|0>"
+#ifndef VD_PART
+#define VD_PART 1
+#endif
 #include "nmtools/array/view/matmul.hpp"
 #include "nmtools/array/view/dot.hpp"
 #include "nmtools/array/view/inner.hpp"
@@ -84,21 +88,21 @@ static std::string binary(const Case& c) {
 static std::string handle(const Case& c) {
     if (c.op == "typed") {
         const std::string ta = c.args[1].raw.substr(2), tb = c.args[2].raw.substr(2);
-#ifdef VD_PART_A
-        PAIR("i8", int8_t, "i32", int32_t) PAIR("i32", int32_t, "i8", int8_t)
-        PAIR("i8", int8_t, "i8", int8_t)   PAIR("i16", int16_t, "i64", int64_t) PAIR("i64", int64_t, "i16", int16_t)
-        PAIR("u8", uint8_t, "i16", int16_t) PAIR("i16", int16_t, "u8", uint8_t)
-        PAIR("u8", uint8_t, "u8", uint8_t)  PAIR("i8", int8_t, "i16", int16_t) PAIR("i16", int16_t, "i8", int8_t)
+#if VD_PART == 1
+        PAIR("i8", int8_t, "i32", int32_t) PAIR("i32", int32_t, "i8", int8_t) PAIR("i8", int8_t, "i8", int8_t)
+        PAIR("u8", uint8_t, "u8", uint8_t) PAIR("i8", int8_t, "i16", int16_t) PAIR("i16", int16_t, "i8", int8_t)
+#elif VD_PART == 2
+        PAIR("i16", int16_t, "i64", int64_t) PAIR("i64", int64_t, "i16", int16_t) PAIR("u8", uint8_t, "i16", int16_t)
+        PAIR("i16", int16_t, "u8", uint8_t)  PAIR("i32", int32_t, "i64", int64_t) PAIR("i32", int32_t, "f64", double)
+        PAIR("f64", double, "i32", int32_t)
 #else
-        PAIR("i32", int32_t, "f64", double) PAIR("f64", double, "i32", int32_t)
-        PAIR("i8", int8_t, "f32", float)    PAIR("f32", float, "i8", int8_t)
-        PAIR("f32", float, "f64", double)   PAIR("f64", double, "f32", float)
-        PAIR("i64", int64_t, "f32", float)  PAIR("f32", float, "i64", int64_t)
-        PAIR("u8", uint8_t, "f64", double)  PAIR("f32", float, "f32", float) PAIR("i32", int32_t, "i64", int64_t)
+        PAIR("i8", int8_t, "f32", float)    PAIR("f32", float, "i8", int8_t)   PAIR("f32", float, "f64", double)
+        PAIR("f64", double, "f32", float)   PAIR("i64", int64_t, "f32", float) PAIR("f32", float, "i64", int64_t)
+        PAIR("u8", uint8_t, "f64", double)  PAIR("f32", float, "f32", float)
 #endif
         return "unsupported";
     }
-#ifdef VD_PART_A
+#if VD_PART == 1
     if (c.op == "typed1") {
         const std::string op = c.args[0].raw.substr(2), t = c.args[1].raw.substr(2);
         int off = (int)c.args[3].val, ax1 = (int)c.args[4].val, ax2 = (int)c.args[5].val;
